@@ -26,6 +26,8 @@ def spec_from_case(case):
     if "images" in sp:
         images = [synth.image_spec(pol, scan, L, P, tc) for pol, scan, L, P in sp["images"]]
     spec = synth.product_spec(level, images=images)
+    if sp.get("pad_files"):
+        spec["pad_files"] = {k: tuple(v) for k, v in sp["pad_files"].items()}
     if sp.get("line_mode"):
         for im in spec["images"]:
             im["line_mode"] = sp["line_mode"]
@@ -54,6 +56,13 @@ def check_spec(spec, kind="mcfs", only=None, ignore=(), open_kw=None, attitude_p
     pre: option dicts of opens performed (and discarded) on the same product before the compared one"""
     if files is None:
         files, resolved = synth.build(spec)
+    if spec.get("pad_files"):
+        # bytes behind the last record of a file (padding to a block size): never part of the content
+        names = synth.file_names(spec)
+        files = dict(files)
+        for which, (n, byte) in spec["pad_files"].items():
+            for name in ([names[which]] if which != "img" else names["img"]):
+                files[name] = files[name] + bytes([byte]) * n
     exp = refmodel.expected(spec, resolved, attitude_plus_days=attitude_plus_days)
     with harness.Product(files, kind) as prod:
         try:
